@@ -301,6 +301,20 @@ def _transform(method, *a, **k):
     return run
 
 
+def _odd(ok):
+    import pandas as pd
+
+    if not isinstance(ok, (pd.DataFrame, pd.Series)):
+        return ok
+    o = ok.copy()
+    if isinstance(o.index, pd.MultiIndex):
+        o.index = o.index.set_names([o.index.names[0]] * o.index.nlevels)
+        return o
+    if isinstance(o, pd.DataFrame) and o.shape[1] >= 1:
+        return pd.concat([o, o.iloc[:, :1]], axis=1)
+    return o
+
+
 def _ops_for(seed):
     import pandera as pa
 
@@ -317,6 +331,10 @@ def _ops_for(seed):
         "validate_uncoercible_eager": lambda s, f: _val(s, f["uncoercible"]),
         "validate_uncoercible_lazy": lambda s, f: _val(s, f["uncoercible"], lazy=True),
         "validate_ok_head": lambda s, f: _val(s, f["ok"], head=1),
+        # structurally unusual but legal data: repeated MultiIndex level names / a repeated column label, an empty frame
+        "validate_odd_eager": lambda s, f: _val(s, _odd(f["ok"])),
+        "validate_odd_lazy": lambda s, f: _val(s, _odd(f["ok"]), lazy=True),
+        "validate_empty_lazy": lambda s, f: _val(s, f["ok"].iloc[:0] if hasattr(f["ok"], "iloc") else f["ok"].head(0), lazy=True),
         "str": lambda s, f: str(s),
         "repr": lambda s, f: repr(s),
         "eq_deepcopy": lambda s, f: _eq_copy(s),
